@@ -102,6 +102,14 @@ pub fn worker(tier: &str, k: usize, n: usize, ctx: &mut Ctx) {
       tc::all_methods_return(&mut sub, w);
     });
   }
+  {
+    let mut st = Striper::new(k, n);
+    props::for_each_wild_combined_huge_columns(&mut st, &mut |t| {
+      crate::set_current_case(t);
+      sub.states += 1;
+      tc::all_methods_return(&mut sub, t);
+    });
+  }
   let mut st = Striper::new(k, n);
   let mut cnt = 0u64;
   props::for_each_wild_combined(&mut st, &mut |t| {
